@@ -86,6 +86,29 @@ def debug_logging(on):
         logging.disable(old[2])
 
 
+@contextlib.contextmanager
+def process_tz(tz):
+    """ENVIRONMENT: the time zone of the process (TZ + time.tzset()).  No property statement depends on it."""
+    import time as _time
+    if not tz or not hasattr(_time, 'tzset'):
+        yield
+        return
+    old = os.environ.get('TZ')
+    os.environ['TZ'] = tz
+    _time.tzset()
+    try:
+        yield
+    finally:
+        if old is None:
+            os.environ.pop('TZ', None)
+        else:
+            os.environ['TZ'] = old
+        _time.tzset()
+
+
+PROCESS_TZS = ['JST-9', 'EST5EDT,M3.2.0,M11.1.0', 'NST03:30NDT,M3.2.0,M11.1.0', 'CHADT-13:45', 'UTC+12']
+
+
 def setup_repo_path():
     import logging
     logging.disable(logging.CRITICAL)
@@ -429,6 +452,16 @@ def _check(prop, tier, replay):
     # every 3rd case runs with the library's DEBUG logging on (a replay records it)
     replay_dbg = bool(json.load(open(replay)).get('debug_logging')) if replay else None
 
+    replay_tz = json.load(open(replay)).get('process_tz') if replay else None
+
+    def tz_of(i):
+        # every 5th case runs in a process whose local time zone is not UTC (a replay records which)
+        if os.environ.get('VERIF_NO_TZ'):
+            return None
+        if replay:
+            return replay_tz
+        return PROCESS_TZS[(i // 5) % len(PROCESS_TZS)] if i % 5 == 3 else None
+
     def dbg_of(i):
         if os.environ.get('VERIF_NO_DEBUGLOG'):
             return False
@@ -438,7 +471,7 @@ def _check(prop, tier, replay):
     harness_exc = []          # exceptions inside the plugin on single cases: they must not mask violations elsewhere
     for i, c in enumerate(cases):
         try:
-            with debug_logging(dbg_of(i)):
+            with debug_logging(dbg_of(i)), process_tz(tz_of(i)):
                 impl = P.run_impl(c)
         except Exception as e:      # noqa
             harness_exc.append((i, 'run_impl', traceback.format_exc()[-1500:]))
@@ -473,7 +506,7 @@ def _check(prop, tier, replay):
             harness_exc.append((i, 'oracle', traceback.format_exc()[-1500:]))
             continue
         if why:
-            failures.append(('impl-violates-property', c, impl, why, answers.get(i), runs_before.get(i, 0), dbg_of(i)))
+            failures.append(('impl-violates-property', c, impl, why, answers.get(i), runs_before.get(i, 0), dbg_of(i), tz_of(i)))
             continue
         if i in answers:
             compared += 1
@@ -484,14 +517,15 @@ def _check(prop, tier, replay):
             io = P.impl_obs(impl)
             if mo != io:
                 failures.append(('model-impl-disagreement', c, impl,
-                                 f'model {jdump(mo)[:300]} != impl {jdump(io)[:300]}', answers[i], runs_before.get(i, 0), dbg_of(i)))
+                                 f'model {jdump(mo)[:300]} != impl {jdump(io)[:300]}', answers[i], runs_before.get(i, 0), dbg_of(i), tz_of(i)))
 
     # ---------- 4. shrink, classify, verdict ---------------------------------------------------
     cur_dbg = [False]
+    cur_tz = [None]
 
     def still_fails(kind, c):
         try:
-            with debug_logging(cur_dbg[0]):
+            with debug_logging(cur_dbg[0]), process_tz(cur_tz[0]):
                 impl = P.run_impl(c)
             if kind == 'impl-violates-property':
                 w = P.oracle(c, impl)
@@ -529,8 +563,8 @@ def _check(prop, tier, replay):
     # impl violations first: they carry a failing input
     failures.sort(key=lambda f: 0 if f[0] == 'impl-violates-property' else 1)
     processed = 0
-    for n, (kind, c, impl, why, ans, nbefore, dbg) in enumerate(failures):
-        cur_dbg[0] = dbg
+    for n, (kind, c, impl, why, ans, nbefore, dbg, ptz) in enumerate(failures):
+        cur_dbg[0], cur_tz[0] = dbg, ptz
         # every failure is looked at (a listed known finding that fails on thousands of cases must not crowd out a
         # different violation further down the stream); only the first of each key is shrunk and reported, and at most
         # 200 distinct ones are processed
@@ -554,7 +588,7 @@ def _check(prop, tier, replay):
                 continue
         path = os.path.join('replays', prop, f'{seed}-{len(violations)}.json')
         json.dump({'property': prop, 'kind': kind, 'why': why, 'case': c, 'impl_output': impl, 'finding_key': key,
-                   'model_answer': ans, 'seed': seed, 'tier': tier, 'repo_head': repo_head(), 'runs_before': nbefore, 'debug_logging': dbg,
+                   'model_answer': ans, 'seed': seed, 'tier': tier, 'repo_head': repo_head(), 'runs_before': nbefore, 'debug_logging': dbg, 'process_tz': ptz,
                    'how_to_replay': f'/venv/bin/python harness/check.py {prop} --replay {path}'},
                   open(os.path.join(ROOT, path), 'w'), indent=1, default=str)
         violations.append((kind, path, why, key))
